@@ -11,6 +11,7 @@ def run(ctx):
     # graphs is specified in TopoSort.tla (C12); its CycleAtomic clause (a ValueError from sort leaves
     # every graph's order unchanged) is the C06 requirement for that call. The TopoSort engine is run
     # here as well and its CycleAtomic verdicts are reported under C06.
+    _shape_stage(ctx)
     sub = Ctx("C12", ctx.tier, ctx.seed, ctx.scratch)
     sub.known = []
     topocheck.run_engine(sub)
@@ -29,7 +30,49 @@ def run(ctx):
                           dict(detail, via="C12 CycleAtomic", message="sort() raised on a cyclic graph but changed a graph's node order"))
 
 
+def _shape_stage(ctx) -> None:
+    """In-place edits of a value's shape (Value.merge_shapes, shape[i] = d) are specified in IRClone.tla, which carries
+    types and shapes; its focus configuration IRCloneMC_shape.cfg is explored here and every rejected edit of every
+    state replayed: the rejection must leave the value's shape as it was."""
+    import os
+
+    from .. import irclone
+    from ..common import NCPU, SPECS, MachineryError
+
+    ir_dir = os.path.join(SPECS, "ir")
+    res = ctx.tlc(os.path.join(ir_dir, "IRCloneMC.tla"), os.path.join(ir_dir, "IRCloneMC_shape.cfg"), tag="mc-shape", timeout=1800)
+    if not res.ok:
+        raise MachineryError(f"design spec check failed (shape focus): {res.violated} {res.errors[:2]}\n{res.tail(25)}")
+    findings, stats, kinds = irclone.replay_file(res.out_path, dict(names=["a", "b", "a", "<none>"], consts=[True, True, False, True]), nproc=NCPU)
+    os.unlink(res.out_path)
+    if stats.get("unparsed"):
+        raise MachineryError(f"{stats['unparsed']} emitted records could not be parsed (shape focus)")
+    rejected = sum(v for k, v in kinds.items() if k.split("|")[0] in ("MergeShapes", "SetDim") and k.split("|")[1] != "ok")
+    if not rejected:
+        raise MachineryError("shape focus: no rejected shape edit was replayed")
+    ctx.replayed += stats.get("states", 0)
+    ctx.evaluations += stats.get("calls", 0)
+    ctx.extra["shape_edits"] = {"engine": "irclone (specs/ir/IRClone.tla: MergeShapes, SetDim, SetShape; IRCloneMC_shape.cfg)",
+                                "states_replayed": stats.get("states", 0), "rejected_edits_replayed": rejected}
+    for sig, f in findings.items():
+        if f["cls"] == "C06":
+            ctx.violation(sig, dict(f, via="IRClone shape focus"))
+    for k in kinds:
+        ctx._distinct.add("shape|" + k)
+
+
 def replay(ctx, detail) -> bool:
+    if detail.get("via") == "IRClone shape focus":
+        from .. import irclone
+
+        from ..irdrive import call_from_compact
+
+        r = irclone.CloneReplayer(["a", "b", "a", "<none>"], [True, True, False, True])
+        u = r.build(detail["history"])
+        pre = u.project_c()
+        got = u.apply(call_from_compact(detail["call"]))
+        print(f"replayed {detail['call'][0]}: {got}; state changed: {u.project_c() != pre}")
+        return got != "ok" and u.project_c() != pre
     if detail.get("via") == "C12 CycleAtomic":
         return topocheck.replay_detail(ctx, detail)
     return ircheck.replay_detail(ctx, detail, "C06")
